@@ -22,7 +22,25 @@ LEAF = {
     "enum": ("enum fe", "u64", False, ["FE_B", "FE_A", "FE_C", "FE_B"], ["70000u64", "0u64", "4000000000u64", "70000u64"]),
     "tdint": ("td_int", "i64", True, ["-7", "77", "-777", "7777"], ["-7i64", "77i64", "-777i64", "7777i64"]),
 }
-PRELUDE_C = "enum fe { FE_A, FE_B = 70000, FE_C = 4000000000u };\ntypedef int td_int;\ntypedef int (*cb_t)(int);\n"
+# typedef NAMES that bindgen (and C libraries) treat specially: the <stdint.h> / <stddef.h> families with the definitions the host's
+# libc really gives them: name -> (signed?, bits on x86_64-unknown-linux-gnu)
+STD_NAMES = {
+    "int8_t": (True, 8), "uint8_t": (False, 8), "int16_t": (True, 16), "uint16_t": (False, 16), "int32_t": (True, 32), "uint32_t": (False, 32),
+    "int64_t": (True, 64), "uint64_t": (False, 64),
+    "int_least8_t": (True, 8), "uint_least8_t": (False, 8), "int_least16_t": (True, 16), "uint_least16_t": (False, 16),
+    "int_least32_t": (True, 32), "uint_least32_t": (False, 32), "int_least64_t": (True, 64), "uint_least64_t": (False, 64),
+    "int_fast8_t": (True, 8), "uint_fast8_t": (False, 8), "int_fast16_t": (True, 64), "uint_fast16_t": (False, 64),
+    "int_fast32_t": (True, 64), "uint_fast32_t": (False, 64), "int_fast64_t": (True, 64), "uint_fast64_t": (False, 64),
+    "intmax_t": (True, 64), "uintmax_t": (False, 64), "intptr_t": (True, 64), "uintptr_t": (False, 64),
+    "size_t": (False, 64), "ptrdiff_t": (True, 64), "wchar_t": (True, 32), "ssize_t": (True, 64),
+}
+_BY_WIDTH = {(True, 8): "schar", (False, 8): "uchar", (True, 16): "short", (False, 16): "ushort", (True, 32): "int", (False, 32): "uint",
+             (True, 64): "long", (False, 64): "ulong"}
+for _n, (_s, _b) in STD_NAMES.items():
+    _base = LEAF[_BY_WIDTH[(_s, _b)]]
+    LEAF["sd_" + _n] = (_n, _base[1], _base[2], _base[3], _base[4])
+PRELUDE_C = ("#include <stdint.h>\n#include <stddef.h>\ntypedef long ssize_t;\n"
+             "enum fe { FE_A, FE_B = 70000, FE_C = 4000000000u };\ntypedef int td_int;\ntypedef int (*cb_t)(int);\n")
 
 
 class Ty:
@@ -149,7 +167,7 @@ def rust_result_leaf_check(expr, kind, j):
         return f"(({expr}) as u64) == ((h >> {j}) & 1)"
     if kind == "enum":
         return f"(({expr}) as u64) == (if (h >> {j}) & 1 == 1 {{ 70000u64 }} else {{ 4000000000u64 }})"
-    bits = {"char": 8, "schar": 8, "uchar": 8, "short": 16, "ushort": 16, "int": 32, "uint": 32, "tdint": 32}.get(kind, 64)
+    bits = {"char": 8, "schar": 8, "uchar": 8, "short": 16, "ushort": 16, "int": 32, "uint": 32, "tdint": 32}.get(kind, STD_NAMES[kind[3:]][1] if kind.startswith("sd_") else 64)
     mask = (1 << bits) - 1
     if LEAF[kind][2]:
         return f"((({expr}) as i64) as u64) & {mask}u64 == (h >> {j}) & {mask}u64"
